@@ -203,84 +203,74 @@ theorem marked_mkChain (e : Entry) (ks : Key) : (mkChain e ks).marked = 1 := by
     | nil => simp [mkChain, Node.marked]
     | cons y ys => simp only [mkChain, Node.marked, ih]; simp
 
-/-- the facts about one `setData` call -/
+/-- what one call of `setData` / `ins` guarantees, as a predicate on its result -/
+def InsSpec (old new : Node) (mem : Mem) (q : InsRes) : Prop :=
+  (q.st = .ok → q.node = new ∧ q.mem.live + old.owned = mem.live + q.node.owned ∧
+      q.node.marked = old.marked + (if q.inc then 1 else 0)) ∧
+  (q.st ≠ .ok → q.st = .errAlloc ∧ q.node = old ∧ q.inc = false ∧ q.mem.live = mem.live) ∧
+  q.mem.fault = mem.fault ∧ q.mem.libc = mem.libc
+
 theorem setData_spec (key : Key) (v c : Nat) (d : Option Entry) (l m r : Node) (mem : Mem) :
-    let q := setData key v c d l m r mem
-    (q.st = .ok → q.node = .node c (some (key, v)) l m r ∧
-        q.mem.live + (Node.node c d l m r).owned = mem.live + q.node.owned ∧
-        q.node.marked = (Node.node c d l m r).marked + (if q.inc then 1 else 0)) ∧
-    (q.st ≠ .ok → q.st = .errAlloc ∧ q.node = .node c d l m r ∧ q.inc = false ∧ q.mem.live = mem.live) ∧
-    q.mem.fault = mem.fault ∧ q.mem.libc = mem.libc := by
+    InsSpec (.node c d l m r) (.node c (some (key, v)) l m r) mem (setData key v c d l m r mem) := by
+  unfold InsSpec
   cases d with
   | some e0 => simp [setData, Node.owned, Node.nodes, Node.marked]
   | none =>
     simp only [setData]
-    cases ha : mem.alloc.1
-    · have a := Mem.alloc_fst_false mem ha
-      simp [a]
+    rcases Bool.eq_false_or_eq_true mem.alloc.1 with ha | ha
     · have a := Mem.alloc_fst_true mem ha
-      simp [a, Node.owned, Node.nodes, Node.marked]; omega
+      simp [ha, a, Node.owned, Node.nodes, Node.marked]; omega
+    · have a := Mem.alloc_fst_false mem ha
+      simp [ha, a]
+
+theorem InsSpec.lift {old new : Node} {mem : Mem} {q : InsRes} (h : InsSpec old new mem q)
+    (f : Node → Node) (hn : ∀ t, (f t).nodes = t.nodes + (f .nil).nodes)
+    (hm : ∀ t, (f t).marked = t.marked + (f .nil).marked) :
+    InsSpec (f old) (f new) mem ⟨q.st, f q.node, q.inc, q.mem⟩ := by
+  unfold InsSpec at *
+  refine ⟨fun h1 => ?_, fun h1 => ?_, h.2.2.1, h.2.2.2⟩
+  · have := h.1 h1
+    refine ⟨by rw [this.1], ?_, ?_⟩
+    · simp only [Node.owned] at this ⊢
+      rw [hn old, hn q.node, hm old, hm q.node]; omega
+    · simp only at this ⊢; rw [hm old, hm q.node]; omega
+  · have := h.2.1 h1
+    exact ⟨this.1, by rw [this.2.1], this.2.2.1, this.2.2.2⟩
 
 /-- **`add` below the header**: either everything succeeded and the tree is the pure insertion, or the
 status is `CC_ERR_ALLOC`, the tree is unchanged and every block allocated on the way was released -/
 theorem ins_spec (key : Key) (v : Nat) (t : Node) (ks : Key) (mem : Mem) :
-    let q := t.ins cmp key v ks mem
-    (q.st = .ok → q.node = t.insPure cmp (key, v) ks ∧ q.mem.live + t.owned = mem.live + q.node.owned ∧
-        q.node.marked = t.marked + (if q.inc then 1 else 0)) ∧
-    (q.st ≠ .ok → q.st = .errAlloc ∧ q.node = t ∧ q.inc = false ∧ q.mem.live = mem.live) ∧
-    q.mem.fault = mem.fault ∧ q.mem.libc = mem.libc := by
+    InsSpec t (t.insPure cmp (key, v) ks) mem (t.ins cmp key v ks mem) := by
   induction t generalizing ks with
   | nil =>
-    simp only [Node.ins]
+    unfold InsSpec
+    simp only [Node.ins, Node.insPure]
     have a := allocChain_spec (chainLen ks) 0 mem (by omega)
-    cases ha : (allocChain (chainLen ks) 0 mem).1
-    · simp only [Bool.not_false, if_true]
-      have := a.2.1 ha
-      refine ⟨by simp, fun _ => ⟨rfl, rfl, rfl, by omega⟩, a.2.2.1, a.2.2.2⟩
-    · simp only [Bool.not_true, Bool.false_eq_true, if_false]
-      have h1 := a.1 ha
-      cases hb : (allocChain (chainLen ks) 0 mem).2.alloc.1
-      · have b := Mem.alloc_fst_false _ hb
-        have f := freeN_spec (chainLen ks) (allocChain (chainLen ks) 0 mem).2.alloc.2 (by omega)
-        simp only [Bool.not_false, if_true]
-        refine ⟨by simp, fun _ => ⟨rfl, rfl, rfl, by omega⟩, by rw [f.2.1, b.2.1, a.2.2.1], by rw [f.2.2, b.2.2, a.2.2.2]⟩
+    rcases Bool.eq_false_or_eq_true (allocChain (chainLen ks) 0 mem).1 with ha | ha
+    · have h1 := a.1 ha
+      rcases Bool.eq_false_or_eq_true (allocChain (chainLen ks) 0 mem).2.alloc.1 with hb | hb
       · have b := Mem.alloc_fst_true _ hb
-        simp only [Bool.not_true, Bool.false_eq_true, if_false]
-        refine ⟨fun _ => ⟨rfl, ?_, ?_⟩, by simp, by rw [b.2.1, a.2.2.1], by rw [b.2.2, a.2.2.2]⟩
+        simp only [ha, hb, Bool.not_true, Bool.false_eq_true, if_false]
+        refine ⟨fun _ => ⟨trivial, ?_, ?_⟩, by simp, by rw [b.2.1, a.2.2.1], by rw [b.2.2, a.2.2.2]⟩
         · simp only [Node.owned, nodes_mkChain, marked_mkChain, Node.nodes, Node.marked]; omega
         · simp [marked_mkChain, Node.marked]
+      · have b := Mem.alloc_fst_false _ hb
+        have f := freeN_spec (chainLen ks) (allocChain (chainLen ks) 0 mem).2.alloc.2 (by omega)
+        simp only [ha, hb, Bool.not_true, Bool.not_false, Bool.false_eq_true, if_false, if_true]
+        refine ⟨by simp, fun _ => ⟨trivial, trivial, trivial, by omega⟩, by rw [f.2.1, b.2.1, a.2.2.1], by rw [f.2.2, b.2.2, a.2.2.2]⟩
+    · have := a.2.1 ha
+      simp only [ha, Bool.not_false, if_true]
+      refine ⟨by simp, fun _ => ⟨trivial, trivial, trivial, by omega⟩, a.2.2.1, a.2.2.2⟩
   | node c d l m r ihl ihm ihr =>
     cases ks with
     | nil => simp only [Node.ins, Node.insPure]; exact setData_spec key v c d l m r mem
     | cons x xs =>
       simp only [Node.ins, Node.insPure]
       cases h : cmp x c <;> simp only []
-      · have := ihl (x :: xs)
-        refine ⟨fun h1 => ?_, fun h1 => ?_, this.2.2.1, this.2.2.2⟩
-        · have := this.1 h1
-          refine ⟨by rw [this.1], ?_, ?_⟩
-          · simp only [Node.owned, Node.nodes, Node.marked] at this ⊢; omega
-          · simp only [Node.marked] at this ⊢; omega
-        · have := this.2.1 h1
-          exact ⟨this.1, by rw [this.2.1], this.2.2.1, this.2.2.2⟩
+      · exact (ihl (x :: xs)).lift (fun t => .node c d t m r) (by intro t; simp [Node.nodes]; omega) (by intro t; simp [Node.marked]; omega)
       · cases xs with
         | nil => exact setData_spec key v c d l m r mem
         | cons y ys =>
-          simp only []
-          have := ihm (y :: ys)
-          refine ⟨fun h1 => ?_, fun h1 => ?_, this.2.2.1, this.2.2.2⟩
-          · have := this.1 h1
-            refine ⟨by rw [this.1], ?_, ?_⟩
-            · simp only [Node.owned, Node.nodes, Node.marked] at this ⊢; omega
-            · simp only [Node.marked] at this ⊢; omega
-          · have := this.2.1 h1
-            exact ⟨this.1, by rw [this.2.1], this.2.2.1, this.2.2.2⟩
-      · have := ihr (x :: xs)
-        refine ⟨fun h1 => ?_, fun h1 => ?_, this.2.2.1, this.2.2.2⟩
-        · have := this.1 h1
-          refine ⟨by rw [this.1], ?_, ?_⟩
-          · simp only [Node.owned, Node.nodes, Node.marked] at this ⊢; omega
-          · simp only [Node.marked] at this ⊢; omega
-        · have := this.2.1 h1
-          exact ⟨this.1, by rw [this.2.1], this.2.2.1, this.2.2.2⟩
+          exact (ihm (y :: ys)).lift (fun t => .node c d l t r) (by intro t; simp [Node.nodes]; omega) (by intro t; simp [Node.marked]; omega)
+      · exact (ihr (x :: xs)).lift (fun t => .node c d l m t) (by intro t; simp [Node.nodes]; omega) (by intro t; simp [Node.marked]; omega)
 end CC.TST
